@@ -183,18 +183,43 @@ fn points(thorough: bool) -> Vec<Point> {
         let mut base = family::base_point();
         base.d[0] = w_idx;
         base.d[2] = n_idx;
+        if family::WIDTHS[w_idx] == 1 {
+            // a one-column trace cannot carry the base's periodic assertion (it needs a rotation column):
+            // its base is the single assertion on the first step
+            base.d[5] = 1;
+        }
         out.push(base);
         for &dim in dims.iter() {
-            for v in 1..family::dim_size(dim) {
+            for v in 0..family::dim_size(dim) {
+                if v == base.d[dim] {
+                    continue;
+                }
                 let mut p = base;
                 p.d[dim] = v;
                 out.push(p);
-                if thorough && dim != 6 {
-                    // second deviation: with an auxiliary segment
+                if dim != 6 {
+                    // second deviation: with an auxiliary segment (more auxiliary than main constraints for the
+                    // one-column base, fewer for the two-column one; with a Lagrange kernel column)
                     for aux in [2usize, 4] {
                         let mut q = p;
                         q.d[6] = aux;
                         out.push(q);
+                    }
+                }
+                if thorough {
+                    // every second deviation
+                    for &dim2 in dims.iter() {
+                        if dim2 <= dim {
+                            continue;
+                        }
+                        for w in 0..family::dim_size(dim2) {
+                            if w == base.d[dim2] {
+                                continue;
+                            }
+                            let mut q = p;
+                            q.d[dim2] = w;
+                            out.push(q);
+                        }
                     }
                 }
             }
@@ -211,7 +236,7 @@ fn points(thorough: bool) -> Vec<Point> {
 pub fn subs(run: &Arc<Run>) -> Vec<Arc<dyn Sub>> {
     let thorough = run.tier().is_thorough();
     let seed = run.seed();
-    run.rule("reduced family (main width 1-2 plus 0-3 auxiliary columns, n in {8,16}, every rule / exemption count / exempt-row fill / assertion set / aux kind / initial state / extension as a deviation from small bases) x (field, hasher) pairs: EVERY (column, step) cell of the main and of the auxiliary segment corrupted by +1, -1 and a seeded value; the reference validity predicate decides: invalid => if the prover returns a proof, verify must reject; still valid (only exempt transitions, no asserted cell) => must prove and verify; then for the accepted honest proof every asserted value +-1, a different statement encoding, a different transition rule, and every byte of the proof context changed 5 ways must be rejected or fail to parse; each corrupted cell / perturbation is one non-trivial evaluation, distinct by (pair, point, cell, delta)");
+    run.rule("reduced family (main width 1-2 plus 0-3 auxiliary columns, n in {8,16}, every rule / exemption count / exempt-row fill / assertion set / aux kind / initial state / extension as a deviation from three small bases, each also combined with a two-column auxiliary segment and with a Lagrange-kernel segment - so that auxiliary constraints outnumber, equal and are outnumbered by the main ones; thorough: every double deviation) x (field, hasher) pairs: EVERY (column, step) cell of the main and of the auxiliary segment corrupted by +1, -1 and a seeded value; the reference validity predicate decides: invalid => if the prover returns a proof, verify must reject; still valid (only exempt transitions, no asserted cell) => must prove and verify; then for the accepted honest proof every asserted value +-1, a different statement encoding, a different transition rule, and every byte of the proof context changed 5 ways must be rejected or fail to parse; each corrupted cell / perturbation is one non-trivial evaluation, distinct by (pair, point, cell, delta)");
     run.assume("rejection of an invalid trace is probabilistic with error <= degree/|field| <= 2^-50 for these parameters; an acceptance is reported with its replay data, a rerun with another seed separates coincidence from defect");
     let pts = Arc::new(points(thorough));
     let np = pts.len() as u64;
